@@ -201,7 +201,7 @@ func parseIDs(s string) ([]hotstuff.ID, bool) {
 func (f *certFam) descQC(qc hotstuff.QuorumCert) string {
 	name := "?"
 	for n, b := range f.blocks {
-		if b.Hash() == qc.BlockHash() {
+		if b.Hash() == qc.BlockHash() && (name == "?" || n < name) {
 			name = n
 		}
 	}
